@@ -44,3 +44,53 @@ package scheduler
 //@   precall scheduler\.diffValidators$ :: argIs(1, currentValidators) && argIs(2, pendingValidators) && pendingValidators != nil
 //@   precall state\.MutableState\)\.PutCurrentValidators$ :: argIs(1, pendingValidators) && defined(validatorUpdates)
 //@   note EndBlock hands CometBFT the difference between the stored current set and the stored pending set, and only then records the pending set as current
+
+// ---- election order is a function of state and entropy (C14): map iteration order never reaches the shuffle ----
+//
+// GOrdDet[a] = "the order of the elements of the address array a is a function
+// of the SET of its elements (and of deterministic inputs)". A slice collected
+// from a Go map has no such guarantee; sortAddresses establishes it; the
+// entropy-seeded shuffle and the stable sort by balance preserve it (they are
+// deterministic functions of the contents, the DRBG state and the balances).
+
+//@ import staking "github.com/oasisprotocol/oasis-core/go/staking/api"
+//@ ghost var GOrdDet map[*staking.Address]bool
+
+//@ func sortAddresses
+//@   trusted
+//@   modifies addrs, GOrdDet
+//@   ensures GOrdDet[arrOf(addrs)] && (forall a *staking.Address :: a != arrOf(addrs) ==> GOrdDet[a] == old(GOrdDet[a]))
+//@   note sort.Slice by bytes.Compare of the addresses: the resulting order depends only on the set of addresses (they are distinct map keys)
+
+//@ func shuffleAddresses
+//@   trusted
+//@   modifies addrs
+//@   note rand.Shuffle driven by the entropy-seeded DRBG: a deterministic permutation of the current order
+
+//@ func sortAddressesByBalance
+//@   trusted
+//@   modifies addrs
+//@   note sort.SliceStable: ties keep the current order
+
+//@ func initRNG
+//@   props C14
+//@   modifies nothing
+
+//@ func fetchBalances
+//@   props C14
+//@   requires stakeAcc != nil
+//@   modifies nothing
+//@   loop 1 invariant true
+
+//@ func stakingAddressMapToSliceByStake
+//@   props C14
+//@   requires stakeAcc != nil && schedulerParameters != nil
+//@   precall scheduler\.shuffleAddresses$ :: GOrdDet[arrOf(addrs)]
+//@   ensures err == nil ==> GOrdDet[arrOf(result0)]
+//@   note the slice handed to the entropy-seeded shuffle (and returned) never carries Go's map iteration order: it is sorted first
+
+//@ func distributeRewards
+//@   props C14
+//@   requires ctx != nil && schedulerParameters != nil
+//@   precall state\.MutableState\)\.AddRewards$ :: GOrdDet[arrOf(addrs)]
+//@   note rewards are paid in sorted address order (the order of account updates and events is part of the replicated state)
